@@ -11,7 +11,9 @@ import (
 	"math/big"
 )
 
-const bigW = 640
+// model width of math/big.Int values; param big_w lowers it for harnesses whose
+// values are known to be narrow (keeps queries inside the integer rendering)
+var bigW = 640
 
 func (x *Exec) bigGet(v Value) *Term {
 	p := v.(Ptr)
